@@ -638,6 +638,127 @@ def iter_find(eng, st, fr, args, fn, site):
     return out
 
 
+def _iter_alts(eng, st, fr, it, depth=0):
+    """the item lists an iterator built from a known array and `filter` / `map` adaptors can yield: alternatives
+    [(items, conds, state)] (an adaptor's closure is applied eagerly, element by element, in order; an undecided predicate
+    forks); None when the iterator is not of that form or too large"""
+    if it[0] == 't' and it[1] == 'arr_iter' and is_int_const(it[2][1]):
+        arr, i0 = it[2][0], it[2][1][1]
+        if len(arr[3]) - i0 > 8:
+            return None
+        return [(list(arr[3][i0:]), [], st.copy())]
+    if not (it[0] == 't' and it[1] in ('iter_filter', 'iter_map') and depth < 4):
+        return None
+    inner = _iter_alts(eng, st, fr, it[2][0], depth + 1)
+    if inner is None:
+        return None
+    clo = it[2][1]
+    out = []
+    for items, conds, st0 in inner:
+        partial = [([], list(conds), st0)]
+        for el in items:
+            nxt = []
+            for got, cs, st_k in partial:
+                if it[1] == 'iter_filter':
+                    h = ('H', 310000 + st_k.next_heap)
+                    st_k = st_k.copy()
+                    st_k.next_heap += 1
+                    st_k.store[(h, ())] = el
+                    arg = ('ref', (h, ()))
+                else:
+                    arg = el
+                alts = eng.apply_fn(st_k, fr, clo, [arg])
+                if alts is None:
+                    return None
+                for a_ in alts:
+                    v, c2 = a_[0], list(a_[1])
+                    st_n = st_k.copy()
+                    if len(a_) > 2 and a_[2] is not None:
+                        st_n.effects = list(a_[2])
+                    if len(a_) > 3 and a_[3] is not None:
+                        st_n.store = dict(a_[3])
+                    if it[1] == 'iter_map':
+                        nxt.append((got + [v], cs + c2, st_n))
+                    elif is_int_const(v):
+                        nxt.append((got + [el] if v[1] else got, cs + c2, st_n))
+                    else:
+                        nxt.append((got + [el], cs + c2 + [(v, '==', 1)], st_n))
+                        nxt.append((got, cs + c2 + [(v, '==', 0)], st_n.copy()))
+            partial = nxt
+            if len(partial) > 64:
+                return None
+        out += partial
+    return out
+
+
+def iter_adaptor(kind):
+    def f(eng, st, fr, args, fn, site):
+        it = args[0]
+        if it[0] == 't' and it[1] in ('arr_iter', 'iter_filter', 'iter_map'):
+            return T(kind, it, args[1])
+        return None
+    return f
+
+
+def _derived_order(eng, items):
+    """keys that order the items as their type's Ord does, when that is certain: integers by value, field-less variants of
+    a workspace enum whose Ord is #[derive]d by declaration order; else None"""
+    if all(is_int_const(x) for x in items):
+        return [x[1] for x in items]
+    if all(x[0] == 'agg' and x[2] is not None and not x[3] for x in items) and len({x[1] for x in items}) == 1:
+        ty = items[0][1]
+        adt = eng.find_adt(ty)
+        cmp_ = [b for b in eng.facts.bodies() if b.name == 'cmp' and (b.impl_trait or '').endswith('cmp::Ord') and (b.impl_self or '') == ty]
+        derived = cmp_ and all(any(e.get('name') == 'Ord' for e in (b.span.get('exp') or [])) for b in cmp_)
+        if adt and adt['kind'] == 'enum' and derived:
+            idx = {v['name']: v['index'] for v in adt['variants']}
+            if all(x[2] in idx for x in items):
+                return [idx[x[2]] for x in items]
+    return None
+
+
+def iter_consume(how):
+    """max / min / last / count / next over an array iterator with eager adaptors"""
+    def f(eng, st, fr, args, fn, site):
+        d = ptr_term(args[0])
+        by_ref = d[0] == 'ref'
+        it = eng.load(st, d[1]) if by_ref else args[0]
+        if not (it[0] == 't' and it[1] in ('iter_filter', 'iter_map', 'arr_iter')):
+            return None
+        if it[1] == 'arr_iter' and how == 'next':
+            return array_iter_next(eng, st, fr, args, fn, site)
+        alts = _iter_alts(eng, st, fr, it)
+        if alts is None:
+            return None
+        out = []
+        for items, conds, st_k in alts:
+            if how == 'count':
+                v = C(len(items), 'usize')
+            elif not items:
+                v = ('agg', OPT, 'None', ())
+            elif how == 'last':
+                v = ('agg', OPT, 'Some', (items[-1],))
+            elif how == 'next':
+                v = ('agg', OPT, 'Some', (items[0],))
+                if by_ref:
+                    eng.write(st_k, d[1], T('arr_iter', ('agg', 'array', None, tuple(items)), C(1, 'usize')))
+            else:
+                keys = _derived_order(eng, items)
+                if keys is None:
+                    return None
+                # (Iterator::max returns the last of several maxima, min the first)
+                best = 0
+                for k in range(1, len(items)):
+                    if (how == 'max' and keys[k] >= keys[best]) or (how == 'min' and keys[k] < keys[best]):
+                        best = k
+                v = ('agg', OPT, 'Some', (items[best],))
+            if how == 'next' and not items and by_ref:
+                eng.write(st_k, d[1], T('arr_iter', ('agg', 'array', None, ()), C(0, 'usize')))
+            out.append((v, conds, list(st_k.effects), dict(st_k.store)))
+        return out
+    return f
+
+
 def ref_bool_not(eng, st, fr, args, fn, site):
     """<&bool as Not>::not(r): the negation of what r points to (a closure pattern that binds a `&bool`)"""
     x = deref(eng, st, ptr_term(args[0]))
@@ -1149,6 +1270,16 @@ SUMMARIES = {
     'std::option::Option::<T>::zip': opt_zip,
     'std::array::<impl [T; N]>::map': array_map,
     '<&bool as std::ops::Not>::not': ref_bool_not,
+    'std::iter::Iterator::filter': iter_adaptor('iter_filter'),
+    'std::iter::Iterator::map': iter_adaptor('iter_map'),
+    'std::iter::Iterator::max': iter_consume('max'),
+    'std::iter::Iterator::min': iter_consume('min'),
+    'std::iter::Iterator::last': iter_consume('last'),
+    'std::iter::Iterator::count': iter_consume('count'),
+    '<std::iter::Filter<I, P> as std::iter::Iterator>::next': iter_consume('next'),
+    '<std::iter::Map<I, F> as std::iter::Iterator>::next': iter_consume('next'),
+    '<std::iter::adapters::filter::Filter<I, P> as std::iter::Iterator>::next': iter_consume('next'),
+    '<std::iter::adapters::map::Map<I, F> as std::iter::Iterator>::next': iter_consume('next'),
     'std::array::iter::<impl std::iter::IntoIterator for [T; N]>::into_iter': array_into_iter,
     'std::slice::<impl [T]>::iter': slice_iter,
     "<std::slice::iter::Iter<'a, T> as std::iter::Iterator>::next": array_iter_next,
